@@ -144,6 +144,7 @@ def check_property(pid, tier, seed):
     C.ensure_dirs()
     spec = P.PROPS[pid]
     log = lambda *a: C.log("[%s/%s]" % (pid, tier), *a)
+    os.environ["VERIF_TIER"] = tier   # the native stand-ins enlarge their domains for the thorough tier
     undecided, units, cmds = [], [], []
 
     # frame scans (syntactic side conditions; a changed frame => undecided, never an alarm)
@@ -174,11 +175,14 @@ def check_property(pid, tier, seed):
         w = V.native_witness([bn["unit"]], log)
         oid = "%s.%s.bounded" % (pid, bn["unit"])
         u = dict(unit="native_" + bn["unit"], backend="native execution of the real crate (bounded stand-in)", functions=bn.get("functions", []),
-                 bounded=bn["bound"], obligations=[dict(id=oid, text=bn["text"])], failed=[], status="ok", time_s=None,
+                 bounded=(bn.get("bound_thorough") or bn["bound"]) if tier == "thorough" else bn["bound"], obligations=[dict(id=oid, text=bn["text"])], failed=[], status="ok", time_s=None,
                  meta=dict(native_cases=w.get("failing_cases", [])))
         if not w.get("built"):
             u["status"] = "undecided"
             u["reason"] = "replay crate did not build: " + (w.get("build_tail") or "")[-300:]
+        elif w.get("abnormal") and not w.get("failing_cases"):
+            u["status"] = "undecided"
+            u["reason"] = w["abnormal"]
         elif w.get("failing_cases"):
             u["status"] = "fail"
             u["failed"] = [dict(msg="%s: %s" % (oid, bn["text"]), oid=oid,
